@@ -1,7 +1,7 @@
 """Double-array builder rule groups (both variants): DA-EDGE, DA-BASE, B-EXT, B-FAIL, B-OPOS(set),
 B-LEN, B-PAIR, B-BASE, B-MAP, B-MOVE, KNOB-SAN1/2/3, KNOB-CONF, KNOB-CW, NFA-DISPATCH, STAT-NS(builder),
 VALID-NONEMPTY(builder), VALID-CONV, VALID-ENTRY, VAL-IDX."""
-from . import core, cond, pat
+from . import core, cond, pat, coll
 from .core import Callee, walk, show, mk_phi
 from .view import FnView, pnorm, mk_payload, OPTION, RESULT
 from .pat import m, ANY, V, K, Par, C, F, E, P, B, Phi, OneOf, members, It
@@ -80,12 +80,10 @@ class BuilderRoles:
                     r.nfa_fn = b
             for b in own:
                 S = Sites(lib, b)
-                if S.named("is_used_index", HELPER) and b is not r.place and b is not r.find_base and \
-                        not S.named("set_check", v.S):
-                    r.verify = b
                 if S.named("set_check", v.S) and b is not r.place:
                     r.sanitise = b
-            for nm in ("place", "init", "extend", "find_base", "verify", "nfa_fn"):
+            # (the candidate verifier is not a role: it is inlined into find_base by the normal form)
+            for nm in ("place", "init", "extend", "find_base", "nfa_fn"):
                 if getattr(r, nm) is None:
                     ctx.missing(rule, "%s builder role `%s`" % (v.tag, nm))
                     r.ok = False
@@ -195,7 +193,9 @@ def rule_placement(ctx, R, NR, BR, rules=None):
         helper = fb["args"][2]
         # --- per edge effects
         env2 = {}
-        ui = [s for s in S.named("use_index", HELPER)]
+        # (the reservation of the constant ROOT/DEAD slots belongs to the initialisation duty, wherever it is written:
+        #  KNOB-CW / DA-EDGE reserve-root-dead)
+        ui = [s for s in S.named("use_index", HELPER) if s["args"][1][0] != "const"]
         ok_ui = len(ui) == 1 and core.same(ui[0]["args"][0], helper) and m(child_idx, ui[0]["args"][1], env2)
         sc = S.named("set_check", v.S)
         chk_val = lab if tag == "bw" else E(idmap, cur)
@@ -329,43 +329,78 @@ def rule_placement(ctx, R, NR, BR, rules=None):
 
 
 def _second_pass(ctx, v, NR, b, S, idmap_t, tag, want):
+    """fail / output_pos transfer.  Form-independent: the loop may skip DEAD with `continue` or with `.filter(..)`; set_fail may
+    be two guarded calls or one call on a conditional value.  Decided by evaluating the loop body under assumptions on the two
+    atomic conditions (i == DEAD_ID) and (nfa.states[i].fail == DEAD_ID)."""
     lib = ctx.lib
     NS = NR.NS
     root = S.root
-    pulls = [s for s in S.keyed(lambda k: core.callee_base(k) == ITER_NEXT)
-             if m(C("core::iter::Iterator::enumerate", C("core::slice::iter", F(Par(2), "states"))), s["args"][0])]
+    src = C("core::iter::Iterator::enumerate", C("core::slice::iter", F(Par(2), "states")))
+    pulls = [s for s in S.keyed(lambda k: core.callee_base(k) == ITER_NEXT) if s["vw"] is root and m(src, pat.iter_origin(s["args"][0]))]
     if len(pulls) != 1:
         ctx.bad("B-FAIL", b, "second-pass:" + tag, b.span, "one pass over nfa.states.iter().enumerate() expected (fail/output_pos transfer)")
         return
     psite = (b.path, pulls[0]["bb"])
-    item = P(C(anykey, ANY, site=psite))
+    pull = pulls[0]["bb"]
+    item = It(src)
     i = F(item, "0", "(tuple)")
     st = F(item, "1", "(tuple)")
     target = E(F(Par(1), "states"), E(lambda t, e: core.same(t, idmap_t), i))
     sf = S.named("set_fail", v.S)
     so = S.named("set_output_pos", v.S)
+    psw = switches_on(root, lambda d: d[0] == "discr" and d[1][0] == "call" and d[1][3] == psite)
+    if len(psw) != 1:
+        ctx.bad("B-FAIL", b, "second-pass:" + tag, b.span, "the transfer loop's pull must be tested once")
+        return
+    head = opt_arms(psw[0][1])[0]
+
+    def eq1(x):
+        return lambda t: t[0] == "bin" and t[1] == "Eq" and ((m(x, t[2]) and is_const(t[3], 1)) or (m(x, t[3]) and is_const(t[2], 1)))
+    dead_state = eq1(i)
+    dead_fail = eq1(F(st, "fail", NS))
+    # filters in the iterator expression (`.filter(|&(i, _)| i != dead)`): the item is processed iff they hold
+    filt = []
+    a = pat.iter_origin(pulls[0]["args"][0], peel_filter=False)
+    for _ in range(4):
+        if a[0] == "call" and isinstance(a[1], str) and core.callee_base(a[1]) == "core::iter::Iterator::filter" and a[2][1][0] == "closure":
+            cr = S.fv.closure_ret(a[2][1][1])
+            filt.append(pnorm(cr) if cr is not None else ("unknown", "filter"))
+            a = pat.iter_origin(a[2][0], peel_filter=False)
+        else:
+            break
+
+    def filtered_out(atoms):
+        return any(cond.Explorer(root, atoms).eval_term(coll._unfilter(f)) is False for f in filt)
+
+    def passes(atoms):
+        return all(cond.Explorer(root, atoms).eval_term(coll._unfilter(f)) is True for f in filt)
+    errs = [x["bb"] for x in _err_exits(b)]
     if want("B-FAIL"):
-        ctx.check(len(sf) == 2, "B-FAIL", b, "set_fail-sites:" + tag, b.span, "two set_fail sites expected (DEAD / mapped); found %d" % len(sf))
+        ctx.check(len(sf) >= 1, "B-FAIL", b, "set_fail-sites:" + tag, b.span, "the transfer loop must call set_fail; found %d sites" % len(sf))
+        okt = all(m(target, s["args"][0]) for s in sf)
+        # value under fail == DEAD_ID: DEAD_IDX; otherwise state_id_map[fail]
+        mapped = E(lambda t, e: core.same(t, idmap_t), F(st, "fail", NS))
+        okd = okm = bool(sf)
         seen_dead = seen_map = False
+        vals_shown = []
         for s in sf:
-            okt = m(target, s["args"][0])
-            val = s["args"][1]
-            if is_const(val, 1):
+            vd = cond.values_under(root, [head], [(dead_state, False), (dead_fail, True)], s["tj"]["args"][1], s["bb"])
+            vm = cond.values_under(root, [head], [(dead_state, False), (dead_fail, False)], s["tj"]["args"][1], s["bb"])
+            rd = cond.explore(root, [head], [(dead_state, False), (dead_fail, True)], stop=[pull])
+            rm = cond.explore(root, [head], [(dead_state, False), (dead_fail, False)], stop=[pull])
+            vals_shown.append((sorted(show(x) for x in vd), sorted(show(x) for x in vm)))
+            if rd is not None and s["bb"] in rd:
                 seen_dead = True
-                # guarded by s.fail == DEAD_ID
-                sw = switches_on(root, lambda d: d[0] == "bin" and d[1] == "Eq" and
-                                 ((m(F(st, "fail", NS), d[2]) and is_const(d[3], 1)) or (m(F(st, "fail", NS), d[3]) and is_const(d[2], 1))))
-                g = any(b.edge_guards((sbi, bool_arms(stj)[0]), s["bb"]) for sbi, stj, d in sw)
-                ctx.check(okt and g, "B-FAIL", b, "set_fail-dead:" + tag, b.loc(s["bb"]),
-                          "DEAD_IDX is stored exactly when the NFA state's fail link is DEAD_ID")
-            else:
+                okd = okd and all(is_const(x, 1) for x in vd) and bool(vd)
+            if rm is not None and s["bb"] in rm:
                 seen_map = True
-                okv = m(E(lambda t, e: core.same(t, idmap_t), F(st, "fail", NS)), val)
-                ctx.check(okt and okv, "B-FAIL", b, "set_fail-mapped:" + tag, b.loc(s["bb"]),
-                          "fail of states[state_id_map[i]] must be state_id_map[nfa.states[i].fail]; found set_fail(%s, %s)"
-                          % (show(s["args"][0]), show(val)), show(val))
+                okm = okm and all(m(mapped, x) for x in vm) and bool(vm)
+        ctx.check(okt and okd and seen_dead, "B-FAIL", b, "set_fail-dead:" + tag, b.span,
+                  "DEAD_IDX is stored exactly when the NFA state's fail link is DEAD_ID; values (dead case, other case) %s" % vals_shown)
+        ctx.check(okt and okm and seen_map, "B-FAIL", b, "set_fail-mapped:" + tag, b.span,
+                  "fail of states[state_id_map[i]] must be state_id_map[nfa.states[i].fail]; values (dead case, other case) %s" % vals_shown,
+                  str(vals_shown))
         ctx.check(seen_dead and seen_map, "B-FAIL", b, "set_fail-both:" + tag, b.span, "both the DEAD and the mapped fail transfer must exist")
-        # every non-dead state gets a fail link: set_fail reached on every path of the iteration except the DEAD-state skip
     if want("B-OPOS"):
         ok = len(so) == 1 and m(target, so[0]["args"][0]) and m(F(st, "output_pos", NS), so[0]["args"][1])
         ctx.check(ok, "B-OPOS", b, "set_output_pos:" + tag, b.loc(so[0]["bb"]) if so else b.span,
@@ -373,15 +408,19 @@ def _second_pass(ctx, v, NR, b, S, idmap_t, tag, want):
                   % [(show(s["args"][0]), show(s["args"][1])) for s in so])
     # the DEAD state (i == DEAD_ID) is the only one skipped
     if want("B-FAIL"):
-        sw = switches_on(root, lambda d: d[0] == "bin" and d[1] == "Eq" and ((m(i, d[2]) and is_const(d[3], 1)) or (m(i, d[3]) and is_const(d[2], 1))))
-        ok = len(sw) == 1
-        if ok and sf and so:
-            sbi, stj, d = sw[0]
-            tt, ff = bool_arms(stj)
-            # on the not-dead arm, set_output_pos and a set_fail are reached on every path
-            sfb = [s["bb"] for s in sf]
-            ok = pulls[0]["bb"] not in b.reach(ff, avoid_blocks=sfb + [x["bb"] for x in _err_exits(b)]) and \
-                pulls[0]["bb"] not in b.reach(ff, avoid_blocks=[so[0]["bb"]])
+        ok = bool(sf) and bool(so)
+        if ok:
+            sfb = {s["bb"] for s in sf}
+            sob = {so[0]["bb"]}
+            live = [(dead_state, False)]
+            # every live state: the filter passes and on every path through the body (error exits aside) set_output_pos and a
+            # set_fail are reached before the next pull
+            v1 = cond.explore(root, [head], live, stop=sfb | set(errs))
+            v2 = cond.explore(root, [head], live, stop=sob)
+            ok = passes(live) and v1 is not None and v2 is not None and pull not in v1 and pull not in v2 and bool(v1 & sfb) and bool(v2 & sob)
+            # the DEAD state itself is skipped (its slot is reserved, its NFA record is a placeholder)
+            vd = cond.explore(root, [head], [(dead_state, True)], stop=[pull])
+            ok = ok and (filtered_out([(dead_state, True)]) or (vd is not None and not (vd & (sfb | sob))))
         ctx.check(ok, "B-FAIL", b, "every-state-transferred:" + tag, b.span,
                   "every NFA state except DEAD must get its fail link and output position transferred")
 
@@ -397,6 +436,11 @@ def _err_exits(b):
 # ----------------------------------------------------------------------------- find_base / verify
 
 def rule_find_base(ctx, R, NR, BR):
+    """B-BASE / DA-BASE on the NORMAL FORM of find_base: the private verifier (check_valid_base / verify_base, whatever it is
+    called, or none at all) is inlined, so the rule sees one function that walks the vacant list, tests every label's slot for
+    each candidate and returns the first candidate that passes, else the fallback.  Accepted source forms: verifier as a separate
+    function or written in place (labelled `continue`), candidate loop as `for` or `find_map`, label test as a loop or an
+    `any`/`all` quantifier; the decisions are evaluated with cond.explore under assumptions on the used-slot / used-base tests."""
     lib = ctx.lib
     for v in R.variants():
         r = BR.v.get(v.tag)
@@ -409,117 +453,101 @@ def rule_find_base(ctx, R, NR, BR):
         vac = It(C(endswith("::vacant_iter"), Par(3)))
         first = E(Par(2), K(0)) if tag == "bw" else F(E(Par(2), K(0)), "0", "(tuple)")
         cand = B("BitXor", vac, first)
-        vcall = C(lambda k: True, cand, Par(2), Par(3))
         slen = C(VEC_LEN, F(Par(1), "states"))
         fallback = slen if tag == "bw" else B("BitXor", slen, first)
-        ok = m(Phi(P(vcall), fallback, req=[0, 1]), ret)
+        ok = m(Phi(cand, fallback, req=[0, 1]), ret)
         ctx.check(ok, "B-BASE", b, "find_base-returns:" + tag, b.span,
                   "find_base may return only a verified candidate (vacant index ^ first label) or the fallback %s; returns %s"
                   % ("states.len()" if tag == "bw" else "states.len() ^ first code", show(ret)), show(ret))
-        vs = [s for s in S.calls if s["c"].body_path == r.verify.path]
-        ctx.check(len(vs) == 1, "B-BASE", b, "candidate-verified:" + tag, b.span, "every candidate base must go through the verifier")
-        # --- verifier
-        vb = r.verify
-        VS = Sites(lib, vb)
-        vret = pnorm(VS.fv.resolve(VS.root.ret()))
-        okr = m(Phi(("agg", OPTION, "None", ()), C("core::num::NonZero::new", Par(1)), req=[0, 1]), vret)
-        ctx.check(okr, "DA-BASE", vb, "verifier-returns:" + tag, vb.span,
-                  "the verifier returns None or NonZero::new(base) for the base it was given; returns %s" % show(vret))
-        pulls = [s for s in VS.keyed(lambda k: core.callee_base(k) == ITER_NEXT) if m(Par(2), s["args"][0])]
-        quants = [s for s in VS.keyed(lambda k: core.callee_base(k) in ("core::iter::Iterator::any", "core::iter::Iterator::all"))
-                  if s["vw"] is VS.root]
-        if not pulls and len(quants) == 1:
-            _verify_quantified(ctx, lib, vb, VS, quants[0], tag)
-            if tag == "bw":
-                _verify_used_base(ctx, vb, VS, tag)
+        uis = S.named("is_used_index", HELPER)
+        if len(uis) != 1:
+            ctx.bad("DA-BASE", b, "slot-test:" + tag, b.span, "one is_used_index test per (candidate, label) expected; found %d" % len(uis))
             continue
-        okp = len(pulls) == 1
-        ctx.check(okp, "DA-BASE", vb, "tests-every-label:" + tag, vb.span,
+        ui = uis[0]
+        hv = ui["vw"]
+        # quantifier form: the slot test sits in the closure of labels.iter().any(..) / .all(..)
+        quants = [s for s in S.calls if core.callee_base(s["key"]) in ("core::iter::Iterator::any", "core::iter::Iterator::all") and
+                  len(s["args"]) == 2 and s["args"][1][0] == "closure" and s["args"][1][1] == hv.body.path]
+        dv = quants[0]["vw"] if quants else hv
+        db = dv.body
+        usite = (hv.body.path, ui["bb"])
+
+        def used(t):
+            return t[0] == "call" and t[3] == usite
+        accepts = [s for s in S.keyed(lambda k: core.callee_base(k) in ("core::num::NonZero::new", "core::num::NonZero::new_unchecked"))
+                   if m(cand, s["args"][0])]
+        ctx.check(bool(accepts) and all(s["vw"] is dv for s in accepts), "B-BASE", b, "candidate-verified:" + tag, b.span,
+                  "every candidate base must go through the slot tests before it is returned")
+        if not accepts or not all(s["vw"] is dv for s in accepts):
+            continue
+        accb = {s["bb"] for s in accepts}
+        # where one candidate's examination ends (dv == root: the next pull from the vacant list; in a find_map closure: its end)
+        outer = [s["bb"] for s in S.calls if s["vw"] is dv and core.callee_base(s["key"]) == ITER_NEXT and
+                 m(C(endswith("::vacant_iter"), Par(3)), pat.iter_origin(s["args"][0]))]
+        if quants:
+            q = quants[0]
+            recv = q["args"][0]
+            okp = m(Par(2), pat.strip_iter(pat.iter_origin(recv)))
+            item = ("item", recv)
+            item_p = lambda t, e: core.same(t, item)
+        else:
+            pulls = [s for s in S.calls if s["vw"] is dv and core.callee_base(s["key"]) == ITER_NEXT and
+                     m(Par(2), pat.strip_iter(pat.iter_origin(s["args"][0]))) and db.dominates(s["bb"], ui["bb"])]
+            okp = len(pulls) == 1 and db.in_cycle(pulls[0]["bb"])
+            if okp:
+                psite = (db.path, pulls[0]["bb"])
+                item_p = P(C(anykey, ANY, site=psite))
+        ctx.check(okp, "DA-BASE", b, "tests-every-label:" + tag, b.span,
                   "the verifier must iterate over the whole label slice it is given (no sub-slice, no early stop)")
-        if okp:
-            psite = (vb.path, pulls[0]["bb"])
-            item = P(C(anykey, ANY, site=psite))
-            lab = item if tag == "bw" else F(item, "0", "(tuple)")
-            ui = VS.named("is_used_index", HELPER)
-            oku = len(ui) == 1 and m(Par(3), ui[0]["args"][0]) and m(B("BitXor", Par(1), lab), ui[0]["args"][1])
-            ctx.check(oku, "DA-BASE", vb, "slot-test:" + tag, vb.loc(ui[0]["bb"]) if ui else vb.span,
-                      "for every label the slot base^label must be tested with is_used_index; found %s" % [show(a) for s in ui for a in s["args"][1:]])
-            if oku:
-                root = VS.root
-                sw = switches_on(root, lambda d: d[0] == "call" and d[3] == (vb.path, ui[0]["bb"]))
-                okg = len(sw) == 1
+        if not okp:
+            continue
+        lab = item_p if tag == "bw" else F(item_p, "0", "(tuple)")
+        oku = m(Par(3), ui["args"][0]) and m(B("BitXor", cand, lab), ui["args"][1])
+        ctx.check(oku, "DA-BASE", b, "slot-test:" + tag, hv.body.loc(ui["bb"]),
+                  "for every label the slot base^label must be tested with is_used_index; found %s" % [show(a) for a in ui["args"][1:]])
+        if not oku:
+            continue
+        if quants:
+            cr = S.fv.closure_ret(hv.body.path)
+            is_any = core.callee_base(q["key"]).endswith("::any")
+            x_used = cond.Explorer(hv, [(used, True)]).eval_term(pnorm(cr)) if cr is not None else None
+            x_free = cond.Explorer(hv, [(used, False)]).eval_term(pnorm(cr)) if cr is not None else None
+            okq = (x_used is True and x_free is False) if is_any else (x_used is False and x_free is True)
+            qsite = (db.path, q["bb"])
+            qres = lambda t: t[0] == "call" and t[3] == qsite
+            v_conf = cond.explore(dv, [q["bb"]], [(qres, is_any)], stop=outer)
+            v_free = cond.explore(dv, [q["bb"]], [(qres, not is_any)], stop=outer)
+            okg = okq and v_conf is not None and v_free is not None and not (v_conf & accb) and bool(v_free & accb)
+        else:
+            pull = pulls[0]["bb"]
+            psw = switches_on(dv, lambda d: d[0] == "discr" and d[1][0] == "call" and d[1][3] == psite)
+            okg = len(psw) == 1
+            if okg:
+                some_a, none_a = opt_arms(psw[0][1])
+                v_used = cond.explore(dv, [some_a], [(used, True)], stop=outer + [pull])
+                v_free = cond.explore(dv, [some_a], [(used, False)], stop=outer + [pull])
+                # a used slot: the candidate is dropped (no accept, the label loop is not resumed for it);
+                # a free slot: the next label is examined; acceptance only once the labels ran out
+                okg = v_used is not None and v_free is not None and not (v_used & accb) and pull not in v_used and \
+                    pull in v_free and not (v_free & accb) and not (v_free & set(db.return_blocks())) and \
+                    all(db.edge_guards((psw[0][0], none_a), ab) for ab in accb)
                 if okg:
-                    sbi, stj, d = sw[0]
-                    tt, ff = bool_arms(stj)
-                    nones = [bi for bi, si, st in vb.stmts() if st["k"] == "assign" and st["lhs"]["local"] == 0 and
-                             st["rv"]["k"] == "aggregate" and st["rv"].get("variant") == "None"]
-                    somes = [s["bb"] for s in VS.keyed(lambda k: core.callee_base(k) == "core::num::NonZero::new") if s["tj"]["dest"]["local"] == 0]
-                    # used slot -> None; Some only after the loop ended
-                    psw = switches_on(root, lambda d: d[0] == "discr" and d[1][0] == "call" and d[1][3] == psite)
-                    okg = any(b_ in vb.reach(tt, avoid_blocks=[pulls[0]["bb"]]) for b_ in nones) and len(psw) == 1 and \
-                        all(vb.edge_guards((psw[0][0], opt_arms(psw[0][1])[1]), sb) for sb in somes) and bool(somes) and \
-                        not any(sb in vb.reach(tt, avoid_blocks=[pulls[0]["bb"]]) for sb in somes)
-                ctx.check(okg, "DA-BASE", vb, "used-slot-rejects:" + tag, vb.span,
-                          "a used slot must reject the base; the base is accepted only after every label was tested")
+                    # ... and it IS accepted then (unless another test, e.g. the used-base test, rejects it)
+                    v_end = cond.explore(dv, [none_a], [], stop=outer)
+                    okg = v_end is not None and bool(v_end & accb)
+        ctx.check(okg, "DA-BASE", b, "used-slot-rejects:" + tag, b.span,
+                  "a used slot must reject the base; the base is accepted only after every label was tested")
         if tag == "bw":
-            _verify_used_base(ctx, vb, VS, tag)
-
-
-def _verify_used_base(ctx, vb, VS, tag):
-    ub = VS.named("is_used_base", HELPER)
-    oku = len(ub) == 1 and m(Par(1), ub[0]["args"][1])
-    if oku:
-        sw = switches_on(VS.root, lambda d: d[0] == "call" and d[3] == (vb.path, ub[0]["bb"]))
-        oku = len(sw) == 1
-        if oku:
-            tt, ff = bool_arms(sw[0][1])
-            somes = [s["bb"] for s in VS.keyed(lambda k: core.callee_base(k) == "core::num::NonZero::new")]
-            oku = not any(sb in vb.reach(tt) for sb in somes)
-    ctx.check(oku, "DA-BASE", vb, "used-base-rejected:" + tag, vb.span,
-              "bw: a base that is already in use must be rejected (CHECK stores only the label, so bases must be unique)")
-
-
-def _verify_quantified(ctx, lib, vb, VS, q, tag):
-    """the verifier written with an iterator quantifier: `labels.iter().any(|l| helper.is_used_index(base ^ l))` -> None, or
-    `.all(|l| !helper.is_used_index(base ^ l))` -> Some.  Same three obligations as the loop form."""
-    recv = q["args"][0]
-    okp = m(Par(2), pat.strip_iter(pat.iter_origin(recv)))
-    ctx.check(okp, "DA-BASE", vb, "tests-every-label:" + tag, vb.span,
-              "the verifier must iterate over the whole label slice it is given (no sub-slice, no early stop)")
-    if not okp:
-        return
-    cl = q["args"][1]
-    cr = VS.fv.closure_ret(cl[1]) if cl[0] == "closure" else None
-    item = ("item", recv)
-    lab = (lambda t, e: core.same(t, item)) if tag == "bw" else F(lambda t, e: core.same(t, item), "0", "(tuple)")
-    ui = VS.named("is_used_index", HELPER)
-    oku = len(ui) == 1 and cr is not None and m(Par(3), ui[0]["args"][0]) and m(B("BitXor", Par(1), lab), ui[0]["args"][1])
-    ctx.check(oku, "DA-BASE", vb, "slot-test:" + tag, vb.loc(q["bb"]),
-              "for every label the slot base^label must be tested with is_used_index; found %s" % [show(a) for s in ui for a in s["args"][1:]])
-    if not oku:
-        return
-    is_any = core.callee_base(q["key"]).endswith("::any")
-
-    def used(t):
-        return t[0] == "call" and isinstance(t[1], str) and t[1].endswith("::is_used_index")
-    x_used = cond.Explorer(VS.root, [(used, True)]).eval_term(pnorm(cr))
-    x_free = cond.Explorer(VS.root, [(used, False)]).eval_term(pnorm(cr))
-    okq = (x_used is True and x_free is False) if is_any else (x_used is False and x_free is True)
-    # the quantifier's result: conflict <=> any == true / all == false
-    conflict_val = is_any
-    qsite = (vb.path, q["bb"])
-
-    def qres(t):
-        return t[0] == "call" and t[3] == qsite
-    nones = {bi for bi, si, st in vb.stmts() if st["k"] == "assign" and st["lhs"]["local"] == 0 and not st["lhs"]["proj"] and
-             st["rv"]["k"] == "aggregate" and st["rv"].get("variant") == "None"}
-    somes = {s["bb"] for s in VS.keyed(lambda k: core.callee_base(k) == "core::num::NonZero::new") if s["tj"]["dest"]["local"] == 0}
-    v_conf = cond.explore(VS.root, [0], [(qres, conflict_val)])
-    v_free = cond.explore(VS.root, [0], [(qres, not conflict_val)])
-    okg = okq and v_conf is not None and v_free is not None and bool(nones) and bool(somes) and \
-        not (v_conf & somes) and bool(v_conf & nones) and bool(v_free & somes)
-    ctx.check(okg, "DA-BASE", vb, "used-slot-rejects:" + tag, vb.span,
-              "a used slot must reject the base; the base is accepted only after every label was tested")
+            ubs = [s for s in S.named("is_used_base", HELPER) if s["vw"] is dv]
+            oku = len(ubs) == 1 and m(Par(3), ubs[0]["args"][0]) and m(cand, ubs[0]["args"][1])
+            if oku:
+                bsite = (db.path, ubs[0]["bb"])
+                vb_ = cond.explore(dv, [ubs[0]["bb"]], [(lambda t: t[0] == "call" and t[3] == bsite, True)], stop=outer)
+                oku = vb_ is not None and not (vb_ & accb)
+                # every acceptance is behind the test
+                oku = oku and all(db.dominates(ubs[0]["bb"], ab) for ab in accb)
+            ctx.check(oku, "DA-BASE", b, "used-base-rejected:" + tag, b.span,
+                      "bw: a base that is already in use must be rejected (CHECK stores only the label, so bases must be unique)")
 
 
 # ----------------------------------------------------------------------------- init / extend / B-LEN / B-PAIR / KNOB
@@ -562,7 +590,13 @@ def rule_array_growth(ctx, R, NR, BR):
         ui = S.named("use_index", HELPER)
         okp = len(pb) == 1 and len(rs) == 1
         ctx.check(okp, "B-PAIR", ib, "init-pair:" + tag, ib.span, "one resize and one push_block in init (array and helper grow together)")
-        okr = sorted(a["args"][1][1] for a in ui if a["args"][1][0] == "const") == [0, 1] and len(ui) == 2
+        uic = [a for a in ui if a["args"][1][0] == "const"]
+        okr = sorted(a["args"][1][1] for a in uic) == [0, 1] and (len(ui) == 2 or ib is r.place)
+        if okr and ib is r.place:
+            # initialisation written inside the placement function: it must precede the work loop
+            pops_ = S.keyed(lambda k: k == "alloc::vec::Vec::pop")
+            okr = bool(pops_) and all(ib.dominates(a["bb"], p_["bb"]) for a in uic for p_ in pops_) and \
+                all(ib.dominates(x["bb"], p_["bb"]) for x in pb + rs + nh for p_ in pops_)
         ctx.check(okr, "KNOB-CW" if tag == "cw" else "DA-EDGE", ib, "reserve-root-dead:" + tag, ib.span,
                   "ROOT_IDX and DEAD_IDX must be reserved in the helper before any placement")
         if tag == "cw":
